@@ -956,6 +956,18 @@ def _convert_to_hill_notation(atoms):
     return [(atoms[el], el) for el in sorted(atoms.keys(), key=_hill_key)]
 
 
+def _str_count(count):
+    """
+    Format a count to six significant digits without using an exponent,
+    since the formula grammar only accepts positional notation.
+    """
+    text = "%g"%count
+    if 'e' in text:
+        mantissa, exponent = text.split('e')
+        decimals = len(mantissa.split('.')[1]) if '.' in mantissa else 0
+        text = "%.*f"%(max(0, decimals - int(exponent)), float(text))
+    return text
+
 def _str_atoms(seq):
     """
     Convert formula structure to string.
@@ -977,12 +989,12 @@ def _str_atoms(seq):
                 value = str(abs(fragment.charge)) if abs(fragment.charge) > 1 else ''
                 ret += '{'+value+sign+'}'
             if count != 1:
-                ret += "%g"%count
+                ret += _str_count(count)
         else:
             if count == 1:
                 piece = _str_atoms(fragment)
             else:
-                piece = "(%s)%g"%(_str_atoms(fragment), count)
+                piece = "(%s)%s"%(_str_atoms(fragment), _str_count(count))
             #ret = ret+" "+piece if ret else piece
             ret += piece
 
